@@ -49,6 +49,9 @@ def producer_never_cleared(ck, ctx, rule):
 
 
 def run(ck, ctx):
+    from . import C13 as R13
+    R13.dispatch_table(ck, ctx)
+    R13.component_step(ck, ctx)
     C.adapter_census(ck, ctx, "all-outputs", ("graph::", "load::"))
     F = ctx.F
     C.single_writer(ck, ctx, "input-writer", "graph::File", "input", [AB])
